@@ -380,7 +380,10 @@ end
 
 /-- what the code does today (certified by the correspondence check, flipped by `fix:` commits) -/
 def Current.cfg : Cfg :=
-  { dictKeyFirst := false, callArgsFirst := false, compareOnce := false, augTargetOnce := false,
-    augInPlace := false, fstrConversion := false, dupKwCheck := false, listTarget := false, uaddApplies := false }
+  { dictKeyFirst := true, callArgsFirst := true, compareOnce := true, augTargetOnce := false,
+    augInPlace := false, fstrConversion := true, dupKwCheck := true, listTarget := true, uaddApplies := true }
+
+/-- the handlers as they were before the `fix:` commits (every flag off) – kept for the regression witnesses -/
+def Cfg.preFix : Cfg := ⟨false, false, false, false, false, false, false, false, false⟩
 
 end PsModel.C01
